@@ -5,9 +5,11 @@ open Cppcheck.Wire Cppcheck.PPCond Cppcheck.PPMacro
 /-
 Line protocol (one op per line):
   ev <defs> <hexexpr>               -> "V <n>" | "E div0|divov|invalid|fnmacro|other"     (simplecpp `#if` evaluator on the text)
-  pp <defs> <undefs> <hexsrc>       -> "T <hex of output tokens joined by one space>" | "E <class>" | "X <why>" (outside the fragment)
+  pp <q> <defs> <undefs> <hexsrc>   (q = three 0/1 flags: Quirks.vaComma, stringSpace, elifEval; 111 = the code)
+                                    -> "T <hex of output tokens joined by one space>" | "E <class>" | "X <why>" (outside the fragment)
   cd <hex userDefines> <undefs> <hex cfg> <hexsrc>   -> same, through the model of createDUI
-  spec <defs> <ast>                 -> "<hex printed text> <S v u | U> <V n | E cls>"     specification value and model value
+  spec <defs> <ast>                 -> "<hex printed text> <S v u | U> <class> <V n | E cls>"   specification value, agreement class
+                                       ("agree" or the first failing hypothesis of ifeval_eq_spec), model value
         ast (prefix, space free): l<base>.<n>.<u>.<lsuf>  D<hexname>  P<hexname> (defined with parentheses)  I<hexname>
                                   u<op>(<ast>)  b<op>(<ast>,<ast>)  c(<ast>,<ast>,<ast>)      op = index into the enum
   defs / undefs: comma separated hex strings, "-" = none
@@ -95,19 +97,24 @@ def evalText (defs : List (List Char)) (text : List Char) : String :=
     | .ok v => s!"V {v}"
     | .error e => "E " ++ errStr e
 
+def quirks (s : String) : Quirks :=
+  match s.toList with
+  | [a, b, c] => ⟨a == '1', b == '1', c == '1'⟩
+  | _ => Quirks.code
+
 def step (line : String) : String :=
   match fields line with
   | ["ev", defs, e] =>
     match parseList defs, fromHex e with
     | some defs, some e => evalText defs e
     | _, _ => "bad-op"
-  | ["pp", defs, undefs, src] =>
+  | ["pp", q, defs, undefs, src] =>
     match parseList defs, parseList undefs, fromHex src with
-    | some defs, some undefs, some src => ppOut (runFile defs undefs src)
+    | some defs, some undefs, some src => ppOut (runFile (quirks q) defs undefs src)
     | _, _, _ => "bad-op"
   | ["cd", ud, undefs, cfg, src] =>
     match fromHex ud, parseList undefs, fromHex cfg, fromHex src with
-    | some ud, some undefs, some cfg, some src => ppOut (runFile (duiDefines ud cfg) undefs src)
+    | some ud, some undefs, some cfg, some src => ppOut (runFile Quirks.code (duiDefines ud cfg) undefs src)
     | _, _, _, _ => "bad-op"
   | ["spec", defs, ast] =>
     match parseList defs, parseE ast.toList with
@@ -117,7 +124,8 @@ def step (line : String) : String :=
       let sv := match value isDef e with
         | some v => s!"S {v.v} {boolStr v.u}"
         | none => "U"
-      s!"{toHex text} {sv} {evalText defs text}"
+      let cls := (firstFailing isDef e).getD "agree"
+      s!"{toHex text} {sv} {cls} {evalText defs text}"
     | _, _ => "bad-op"
   | _ => "bad-op"
 
